@@ -43,7 +43,7 @@ func genPath(r *rand.Rand, allowInvalid bool) string {
 }
 
 var qKeys = []string{"a", "b", "a", "watch", "labelSelector", "x+y", "x%20y", "", "k%3D", "%C3%A9", "\xc3\xa9", "%zz", "a;b", "%", "limit", "B", "a%26b"}
-var qVals = []string{"", "1", "2", "true", "a%2Cb", "a,b", "x=y", "%", "%f", "+", "%2B", "app%3Dweb", "\xc3\xa9", "a b", "%26", "%3D", "/", "?", "a;b", "%00"}
+var qVals = []string{"", "1", "2", "true", "a%2Cb", "a,b", "x=y", "%", "%f", "+", "%2B", "app%3Dweb", "\xc3\xa9", "a%20b", "%26", "%3D", "/", "?", "a;b", "%00"}
 
 func genQuery(r *rand.Rand) (string, string) {
 	if r.Intn(4) == 0 {
